@@ -31,6 +31,11 @@ class Infeasible(PathAbort):
     """The path condition became unsatisfiable (an assumption cut the path)."""
 
 
+class Inconsistent(EngineLimit):
+    """The engine found its own path condition unsatisfiable: a bug or a
+    non-deterministic decision; never a pass."""
+
+
 _cur = None
 import os as _os
 import sys as _sys
@@ -173,7 +178,7 @@ class Path:
     def get_model(self):
         if self.model is None:
             if not self._check():
-                raise Infeasible('path condition unsatisfiable')
+                raise Inconsistent('path condition unsatisfiable')
             self.model = self.last_model()
         return self.model
 
@@ -205,8 +210,7 @@ class Path:
         if k < len(self.prefix):
             choice = self.prefix[k]
             self.decisions.append(choice)
-            if choice < 2:
-                self.assume(cond if choice else z3.Not(cond))
+            self.assume(cond if (choice & 1) else z3.Not(cond))
             return bool(choice & 1)
         ncond = z3.Not(cond)
         mv = None
@@ -251,20 +255,50 @@ class Path:
         if ff:
             self.decisions.append(2)
             return False
-        raise Infeasible('both sides infeasible')
+        raise Inconsistent('both sides of a decision infeasible')
 
-    def realise_int(self, e, cap=64, what='int'):
-        """Fork over the concrete values of BV term e (at most cap)."""
+    def min_value(self, e, lo, hi):
+        """Smallest signed value of BV term e under the path condition, by
+        binary search with solver checks (not decisions).  Deterministic: it
+        depends only on the path condition, never on which model the solver
+        happens to return -- decisions must be reproducible on replay."""
+        if not self._check(z3.And(e >= lo, e <= hi)):
+            return None
+        a, b = lo, hi
+        # use the model to shrink the upper bound quickly
+        mv = _signed(self.last_model().eval(e, model_completion=True)
+                     .as_long())
+        if a <= mv <= b:
+            b = mv
+        while a < b:
+            mid = (a + b) // 2
+            if self._check(z3.And(e >= a, e <= mid)):
+                b = mid
+                mv = _signed(self.last_model().eval(
+                    e, model_completion=True).as_long())
+                if a <= mv < b:
+                    b = mv
+            else:
+                a = mid + 1
+        return a
+
+    def realise_int(self, e, cap=64, what='int', lo=MININT, hi=MAXINT):
+        """Fork over the concrete values of BV term e in increasing order
+        (at most cap values)."""
         e = z3.simplify(e)
         if z3.is_bv_value(e):
             return _signed(e.as_long())
         self.stats.realisations += 1
         n = 0
+        cur_lo = lo
         while True:
-            m = self.get_model()
-            v = m.eval(e, model_completion=True)
+            v = self.min_value(e, cur_lo, hi)
+            if v is None:
+                raise Inconsistent('no value left while realising %s' %
+                                   what)
             if self.decide(e == v):
-                return _signed(v.as_long())
+                return v
+            cur_lo = v + 1
             n += 1
             if n >= cap:
                 raise EngineLimit('realisation fan-out over %d for %s' %
@@ -512,7 +546,9 @@ class SInt:
 
     # --- realisation ------------------------------------------------------
     def __index__(self):
-        return cur().realise_int(self.e, what='__index__')
+        return cur().realise_int(self.e, what='__index__', lo=self.lo,
+                                 hi=self.hi, cap=max(64, min(
+                                     self.hi - self.lo + 1, 300)))
 
     __int__ = __index__
 
